@@ -40,7 +40,10 @@ const rule = "streams: (1) known-finding witnesses and corpus; (2) small-scope e
 	"attribute (every AttrKey through GetAttr/HasAttr, IsRegular/Empty, String, Clone) before and after the real npm resolver has " +
 	"resolved every root through that same client (bundled keys re-read by lookups after each resolution), values handed out earlier " +
 	"are read again, and a second fresh client is compared; probe raceresolve: 8 goroutines resolving every root through one client " +
-	"in a -race child process (3 directed universes in the quick tier, more in the thorough tier). " +
+	"in a -race child process (3 directed universes in the quick tier, more in the thorough tier); " +
+	"(9) version strings that are no npm versions (1.2.3.4, 1.0.0rc1, 0.1.2b, v1, 1.0, 1.0.0_1, next, latest, 1.0.0-) on bundled and ordinary packages, " +
+	"spelled exactly by requirements and by MatchingVersions probes; bundled versions that are empty or written with range syntax (=1.0.0, blanks: class " +
+	"F-C18-bundle-version-range); oracle b5calls compares every call of a resolve op between APIClient and a LocalClient holding the same data. " +
 	"A case is distinct by its op line; non-trivial = the call sequence reached at least one bundled version through a successful " +
 	"Requirements(bundler), or flattened at least one alias."
 
@@ -114,6 +117,15 @@ func execOp(f []string) string {
 			return probeRaceResolve(f[2])
 		}
 		return "bad-op"
+	case "classifyv":
+		if len(f) != 2 {
+			return "bad-op"
+		}
+		v, ok := unhx(f[1])
+		if !ok {
+			return "bad-op"
+		}
+		return "ok " + b01(rangeSyntax(v))
 	case "classify":
 		if len(f) != 2 {
 			return "bad-op"
@@ -360,6 +372,19 @@ func recheck(oracle string, ops, res []string) (bool, string) {
 			return false, ""
 		}
 		return true, "api: " + a + " || local: " + l
+	case "b5calls":
+		if op != "resolve" {
+			return true, "b5calls needs a resolve op"
+		}
+		rs, ok := splitRes(res[0])
+		if !ok {
+			return true, "result is " + res[0]
+		}
+		applicable, same, d := compareCalls(u, cs, rs)
+		if !applicable || same {
+			return false, ""
+		}
+		return true, d
 	}
 	return true, "unknown oracle " + oracle
 }
@@ -426,12 +451,15 @@ func classify(oracle string, ops, res []string) string {
 		if universeNoRange(u) {
 			return "F-C18-alias-norange"
 		}
-	case "b5":
+	case "b5", "b5calls":
 		if universeNoRange(u) {
 			return "F-C18-alias-norange"
 		}
 		if universeOpen(u) {
 			return "F-C18-unknown-package"
+		}
+		if universeRangeVersion(u) {
+			return "F-C18-bundle-version-range"
 		}
 	}
 	return ""
